@@ -262,6 +262,11 @@ impl Read for ChunkReader {
         let mut log = self.log.borrow_mut();
         log.reads += 1;
         log.max_offered = log.max_offered.max(buf.len());
+        if buf.len() > 4 * MAX_BUFFER {
+            // far beyond the cap: stop the run here (the oracle reports c09.buffer_cap) instead
+            // of letting a quadratic rescan of an ever-growing window run into the watchdog
+            return Err(io::Error::other("harness: offered buffer far above the cap"));
+        }
         if log.reads > self.budget {
             log.budget_exceeded = true;
             return Err(io::Error::other("harness: read budget exceeded"));
